@@ -55,6 +55,14 @@ def render(e):
     raise ValueError(k)
 
 
+def render_top(e):
+    """Right-hand side as a user would write it: no parentheses around the whole expression."""
+    r = render(e)
+    if e[0] in ("mul", "add", "cond") and r.startswith("(") and r.endswith(")"):
+        return r[1:-1]
+    return r
+
+
 def evaluate(e, env_):
     k = e[0]
     if k == "num":
@@ -81,6 +89,12 @@ def programs(draw, base):
             if p.type == "volume" and p.length == 1 and p.default > 0 and not p.is_control]
     nrep = draw(st.integers(1, min(3, len(cand))))
     replaced = draw(st.lists(st.sampled_from(cand), min_size=nrep, max_size=nrep, unique=True))
+    constrained = [c for c in cand if info.valid and c in info.valid]
+    force_cond = None
+    if constrained and draw(st.booleans()):
+        force_cond = draw(st.sampled_from(constrained))
+        if force_cond not in replaced:
+            replaced[0] = force_cond
     nnew = draw(st.integers(1, 3))
     news = NEWNAMES[:nnew]
     ndef = {n: S.sig(draw(st.sampled_from([1.0, 50.0, 200.0, 1e4])), 3) for n in news}
@@ -103,6 +117,8 @@ def programs(draw, base):
     for b in replaced:
         D = defaults[b]
         kind = draw(st.sampled_from(["affine", "power", "var", "cond"]))
+        if b == force_cond:
+            kind = "cond"
         a = draw(st.sampled_from(news))
         if kind == "affine" or (kind == "var" and not varnames):
             c0 = draw(st.sampled_from([0.0, 0.25, 0.5]))
@@ -121,7 +137,9 @@ def programs(draw, base):
         exprs[b] = e
         lines.append((b, e))
     comments = [draw(st.sampled_from(["", "", "  # python comment", "  // c comment", "   "])) for _ in lines]
-    text = "\n" + "\n".join("    %s = %s%s" % (n, render(e), c) for (n, e), c in zip(lines, comments)) + "\n  \n"
+    bare = draw(st.booleans())
+    text = "\n" + "\n".join("    %s = %s%s" % (n, render_top(e) if bare else render(e), c)
+                             for (n, e), c in zip(lines, comments)) + "\n  \n"
     untouched = [p.id for p in info.parameters.kernel_parameters if p.id not in replaced and p.type != "orientation"]
     insert_after = None
     if draw(st.booleans()):
